@@ -586,7 +586,7 @@ def configs(ctx):
     if ctx.quick:
         return [
             {"gomaxprocs": 2, "yield": s * 7 + 1, "reps": 3, "modes": "0,G", "seed": s, "abstract": True},
-            {"gomaxprocs": 4, "yield": None, "reps": 4, "modes": "0,G", "seed": s + 11, "abstract": True},
+            {"gomaxprocs": 4, "yield": None, "reps": 3, "modes": "0,G", "seed": s + 11, "abstract": True},
             {"gomaxprocs": 8, "yield": s * 7 + 2, "reps": 4, "modes": "0,G", "seed": s + 23, "abstract": True},
             {"gomaxprocs": 16, "yield": s * 7 + 3, "reps": 3, "modes": "0,GD", "seed": s + 37, "abstract": True},
             # lock convoys on the small corpus programs (check-then-create windows in the memo tables)
@@ -624,7 +624,7 @@ def run(ctx):
 
     # ---- programs: corpus first, then generated from the seed
     corpus = json.load(open(CORPUS))
-    counts = [2, 2, 1] if ctx.quick else [5, 5, 3]
+    counts = [2, 1, 1] if ctx.quick else [5, 5, 3]
     gen, hist = gen_programs(ctx.seed, counts)
     progs = corpus + gen
     by_name = {p["name"]: p for p in progs}
@@ -783,7 +783,7 @@ def run(ctx):
     ]
 
     # ---- classification
-    known = vlib.load_known_findings("C18")
+    # (no finding is listed for C18: vlib.load_known_findings("C18") is empty; every failure is reported)
     # one report per (kind, program), at most 6 (the rest is counted in the evidence)
     uniq, seen_f = [], set()
     for f in oracle_fail:
@@ -792,6 +792,7 @@ def run(ctx):
             seen_f.add(k)
             uniq.append(f)
     ctx.coverage["oracle_failures"] = len(oracle_fail)
+    ctx.coverage["tie_disagreements"] = len(tie_diffs)
     for i, f in enumerate(uniq[:6]):
         pname = f["prog"]
         cfg = dict(f["config"])
